@@ -192,6 +192,31 @@ theorem c07_ols_removes_trend (bl : List (K × K)) (d : K) (hx : sxx bl ≠ 0) (
     funext p; unfold line; congr 1; ring
   rw [h2, this]; ring
 
+/-- the corrected baseline, paired with its abscissa, is the baseline with the line subtracted -/
+theorem zip_take_subtractLine (m c : K) (xs f : List K) (stop ref k : Nat) (hk : k ≤ stop)
+    (hlen : xs.length = f.length) :
+    (List.zip xs (subtractLine m c xs f stop ref)).take k =
+      ((List.zip xs f).take k).map fun p => (p.1, p.2 - (line m c p.1 - line m c (xs.getD ref 0))) := by
+  apply List.ext_getElem
+  · simp [subtractLine, hlen]
+  · intro i h1 h2
+    simp only [List.length_take, List.length_zip, c07_slope_length, List.length_map] at h1 h2
+    have hi : i < f.length := by omega
+    have hix : i < xs.length := by omega
+    simp only [List.getElem_take, List.getElem_zip, List.getElem_map]
+    rw [subtractLine_get _ _ _ _ _ _ _ hi, if_pos (by omega)]
+    simp [List.getElem?_eq_getElem hix]
+
+/-- **region "all" / "approach" / "baseline" with the least-squares line of the baseline: the corrected
+baseline has zero trend** (whenever the region covers the baseline, `idp ≤ stop`) -/
+theorem c07_slope_removes_trend (xs f : List K) (stop ref idp : Nat) (hk : idp ≤ stop)
+    (hlen : xs.length = f.length) (hne : (List.zip xs f).take idp ≠ [])
+    (hx : sxx ((List.zip xs f).take idp) ≠ 0) :
+    olsSlope ((List.zip xs (subtractLine (olsSlope ((List.zip xs f).take idp))
+      (olsIntercept ((List.zip xs f).take idp)) xs f stop ref)).take idp) = 0 := by
+  rw [zip_take_subtractLine _ _ _ _ _ _ _ hk hlen]
+  exact c07_ols_removes_trend _ _ hx hne
+
 /-! ## segment discovery -/
 theorem c07_segment_length (idturn n : Nat) : (segmentOf idturn n).length = n := by simp [segmentOf]
 
